@@ -1,6 +1,8 @@
 \* C29 PoSA: family heco, chain configuration F (MCPoSA!SetsF), mode gen
 SPECIFICATION Spec
 CONSTANTS Family = "heco"
+          Epoch = 0
+          CliqueFixed = FALSE
           Sets <- SetsF
           GenesisSigner = "c"
           G0 = 200
